@@ -32,5 +32,5 @@ for fn in r["functions"]:
         if ob["status"] == "discharged":
             ok += 1
         else:
-            print("  ", ob["status"], ob["name"], ob["text"][:120])
+            print("  ", ob["status"], ob["name"], ob["text"][:120], flush=True)
 print("functions", len(r["functions"]), "obligations", tot, "discharged", ok, "errors", r.get("errors"))
